@@ -91,6 +91,9 @@ func descriptors(s []byte, thorough bool) []dspec {
 		dg{"malformed-bad-hex", "sha256:" + h256[:63] + "g", "", "", "malformed digest"},
 		dg{"malformed-short-hex", "sha256:" + h256[:63], "", "", "malformed digest"},
 		dg{"malformed-traversal", "sha256:../../../../c05-escape", "", "", "malformed digest"},
+		// an encoded part of exactly the hex length that is a relative path to a file every OCI layout has
+		dg{"malformed-traversal-of-hex-length", "sha256:" + strings.Repeat("./", 24) + "../../index.json", "", "", "malformed digest"},
+		dg{"malformed-traversal-of-hex-length-2", "sha256:" + strings.Repeat("./", 24) + "../../oci-layout", "", "", "malformed digest"},
 	)
 	if thorough {
 		dgs = append(dgs,
